@@ -432,7 +432,9 @@ func dagPut(ctx context.Context, rc *regclient.RegClient, mc dagConfig, rSrc, rT
 		}
 	}
 	// push manifest
-	if dm.mod == replaced || dm.mod == added || (dm.mod == unchanged && !ref.EqualRepository(rSrc, rTgt)) {
+	// an unchanged image still has to be pushed when the target is another repository or a new tag
+	if dm.mod == replaced || dm.mod == added || (dm.mod == unchanged && !ref.EqualRepository(rSrc, rTgt)) ||
+		(dm.mod == unchanged && dm.top && rTgt.Tag != "" && rTgt.Tag != rSrc.Tag) {
 		mpOpts := []regclient.ManifestOpts{}
 		rPut := rTgt
 		if !dm.top {
